@@ -278,7 +278,7 @@ if __name__ == "__main__":
                                ["get_A_src_is_get_A", "get_T_src_is_get_T", "get_PH_arg_src_is_get_A",
                                 "get_output_src_is_get_output", "get_full_output_src_is_model", "get_data_src_is_data_table",
                                 "get_full_data_src_is_get_A", "param_columns_src_spec", "param_columns_src_one",
-                                "s2pd_src_is_get_A"])],
+                                "s2pd_src_is_get_A", "print_S_src_is_s2pd"])],
          level_text="props/C15.v; the tie builds random SolvedModels directly (size 1-4, sweep 1-4, non-symmetric matrices, "
                     "scrambled pin index maps), excites random pin subsets with complex amplitudes addressed by name and by Pin "
                     "object, and compares get_output, every row of get_full_output, get_data (T, Amplitude), get_A, get_T with "
